@@ -786,8 +786,7 @@ def cases(prop, tier, seed):
   for c in range(90 * (1 if tier == 'quick' else 10)):
     out.append(_late_script(lrng, c))
   xrng = random.Random(4099 * int(seed) + 1518)
-  for c in range(14 if tier == 'quick' else 70):
-    out.append(_late_burst_script(xrng, c + int(seed)))
+  bursts = [_late_burst_script(xrng, c + int(seed)) for c in range(14 if tier == 'quick' else 70)]
   for c in range(30 if tier == 'quick' else 240):
     out.append(_late_buffered_script(xrng, c))
   srng = random.Random(6151 * int(seed) + 1516)
@@ -797,8 +796,12 @@ def cases(prop, tier, seed):
   brng = random.Random(3571 * int(seed) + 1517)
   nbig = 12 if tier == 'quick' else 72
   big = [_stream_big_script(brng, c + (int(seed) % 3) * 4) for c in range(nbig)]
-  gap = max(1, len(out) // nbig)
-  for c, sc in enumerate(big):
+  # the heavy traces (big requests, bursts of up to ~100 requests) are spread evenly over the list
+  heavy = []
+  for c in range(max(len(big), len(bursts))):
+    heavy += big[c:c + 1] + bursts[c:c + 1]
+  gap = max(1, len(out) // len(heavy))
+  for c, sc in enumerate(heavy):
     out.insert(min(len(out), c * (gap + 1)), sc)
   return out
 
